@@ -479,6 +479,31 @@ func mutantsOf(base, src string) []mutant {
 					add("operand-type-mismatch", x.Op.String()+":"+d, x.Y, w)
 				}
 			}
+		case *ast.UnaryExpr:
+			t := typeOf(x.X)
+			if t == nil || c.info.Types[x].Value != nil {
+				return true
+			}
+			if b, ok := t.Underlying().(*types.Basic); ok {
+				switch {
+				case (x.Op == token.SUB || x.Op == token.XOR) && b.Info()&types.IsNumeric != 0:
+					add("operand-type-mismatch", "unary"+x.Op.String()+":string", x.X, `"s"`)
+				case x.Op == token.NOT && b.Info()&types.IsBoolean != 0:
+					add("operand-type-mismatch", "unary!:int", x.X, "1")
+				}
+			}
+		case *ast.RangeStmt:
+			if t := typeOf(x.X); t != nil {
+				switch t.Underlying().(type) {
+				case *types.Slice, *types.Array, *types.Map, *types.Chan:
+					add("operand-type-mismatch", "range-over-bool", x.X, "true")
+				}
+			}
+		case *ast.TypeAssertExpr:
+			if x.Type != nil {
+				// assertion on a non-interface operand
+				add("invalid-conversion", "assert-on-non-interface", x.X, "1")
+			}
 		case *ast.SendStmt:
 			add("channel-direction", "send-value-type", x.Value, `"s"`)
 		case *ast.IndexExpr:
